@@ -54,7 +54,11 @@ static unsigned long v_cex(const char *name, long idx)
 # define CONTRACT_PRE(c)        ((void)0)
 # define CONTRACT_POST(name, c) ((void)0)
 /* reachability twin: this assertion MUST fail, else everything before it is vacuous */
-# define VREACH()               __CPROVER_assert(0, "VREACH end of harness reachable")
+# ifdef V_NO_VREACH      /* canary jobs run with --stop-on-fail: the first failure must be a real obligation, not this twin */
+#  define VREACH()              ((void) 0)
+# else
+#  define VREACH()              __CPROVER_assert(0, "VREACH end of harness reachable")
+# endif
 # define V_NATIVE_MAIN(h)
 #endif
 
